@@ -587,3 +587,68 @@ Example listable_dict_becomes_list :
   canon true (flatten false (PDict [(KStr [97%N], PDict [(KInt 1, PInt 5); (KInt 0, PInt 6)])])) =
   inr (PDict [(KStr [97%N], PList [PInt 6; PInt 5])]).
 Proof. vm_compute. reflexivity. Qed.
+
+(* ---- the default flatten_complex_keys=True gives the same dict when no string key has a delimiter --------------------------- *)
+Definition simple_key (k : key) : Prop := match k with KStr s => has_special s = false | KInt _ => True end.
+
+Lemma fmt_go_simple : forall ks first, Forall simple_key ks -> fmt_go false first ks = fmt_go true first ks.
+Proof.
+  induction ks as [| k r IH]; intros first H; [reflexivity |]. inv H. cbn [fmt_go]. rewrite IH by assumption. f_equal.
+  destruct k as [s | z]; [| reflexivity]. cbn [fmt_key simple_key] in *. rewrite H2. reflexivity.
+Qed.
+
+Definition flat_step_b (fck : bool) (dest : list (key * pv)) (px : list key * pv) : list (key * pv) :=
+  match fst px with [] => dest | _ => dset (KStr (fmt_go (negb fck) true (fst px))) (snd px) dest end.
+
+Lemma flatten_fold_b : forall fck lg dest,
+  fold_left (fun dest e =>
+               match e with
+               | EPost (k :: p) x => if is_leaf x then dset (KStr (fmt_go (negb fck) true (k :: p))) x dest else dest
+               | _ => dest
+               end) lg dest =
+  fold_left (flat_step_b fck) (leaf_posts lg) dest.
+Proof.
+  intros fck. induction lg as [| e r IH]; intros dest; [reflexivity |].
+  cbn [fold_left]. rewrite IH. destruct e as [p x | p x]; [reflexivity |].
+  cbn [leaf_posts flat_map]. fold (leaf_posts r). destruct p as [| k p]; destruct (is_leaf x); reflexivity.
+Qed.
+
+Lemma flatten_nonleaf_b : forall fck v, is_leaf v = false ->
+  flatten fck v = PDict (fold_left (flat_step_b fck) (LV v []) []).
+Proof.
+  intros fck v H. unfold flatten. rewrite H.
+  destruct (trav_leaves v []) as [_ B]. fold TT.
+  destruct (trav TT TT v []) as [lg ok]. cbn [fst] in B. rewrite flatten_fold_b, B. reflexivity.
+Qed.
+
+Inductive simple_keys : pv -> Prop :=
+| sk_none : simple_keys PNone | sk_int : forall z, simple_keys (PInt z) | sk_str : forall s, simple_keys (PStr s)
+| sk_list : forall l, Forall simple_keys l -> simple_keys (PList l)
+| sk_dict : forall kvs, Forall (fun kv => simple_key (fst kv) /\ simple_keys (snd kv)) kvs -> simple_keys (PDict kvs).
+
+Lemma at_path_simple : forall v p x, simple_keys v -> at_path v p x -> Forall simple_key p.
+Proof.
+  intros v p x Hs H. induction H; [constructor | |].
+  - inv Hs. rewrite Forall_forall in H2. destruct (H2 (k, c) H) as [A B]. constructor; auto.
+  - inv Hs. rewrite Forall_forall in H2. constructor; [exact I | apply IHat_path; apply H2; eapply nth_error_In; eauto].
+Qed.
+
+Lemma fold_left_ext_in : forall (A B : Type) (f g : A -> B -> A) (l : list B) (a : A),
+  (forall a b, In b l -> f a b = g a b) -> fold_left f l a = fold_left g l a.
+Proof.
+  induction l as [| b r IH]; intros a H; [reflexivity |]. cbn [fold_left]. rewrite (H a b (or_introl eq_refl)).
+  apply IH. intros; apply H; right; assumption.
+Qed.
+
+Theorem flatten_default_flag : forall v, simple_keys v -> flatten true v = flatten false v.
+Proof.
+  intros v Hs. destruct (is_leaf v) eqn:L; [unfold flatten; rewrite L; reflexivity |].
+  rewrite !flatten_nonleaf_b by assumption. f_equal. apply fold_left_ext_in.
+  intros a [p x] Hin. unfold flat_step_b. cbn [fst snd]. destruct p as [| k p]; [reflexivity |].
+  cbn [negb]. rewrite fmt_go_simple; [reflexivity |].
+  unfold LV in Hin. apply filter_In in Hin as [Hin _]. apply nodes_iff in Hin as (s & E & Hat). cbn [app] in E. subst s.
+  eapply at_path_simple; eauto.
+Qed.
+
+Corollary canon_flatten_default : forall v, flat_ok v -> simple_keys v -> canon true (flatten true v) = inr v.
+Proof. intros v H1 H2. rewrite flatten_default_flag by assumption. apply canon_flatten. assumption. Qed.
